@@ -206,6 +206,47 @@ def feed(order, fails, stats, label, case):
             return
 
 
+def check_range_codec(fails, stats, rnd, tier):
+    """Run-time cross-check of the contracts of range_encode / range_decode (contracts/udpcl_range.py) on the real
+    functions: enumerated and random normalised interval sets; what the proof assumes about iteration (atomic intervals in
+    ascending order, with .lower / .upper) is what the interval library stand-in (harness/stubs/portion.py) does."""
+    import portion
+    import udpcl.agent as UA
+    sets = [[]]
+    for n in range(1, 4):
+        for bounds in itertools.combinations(range(0, 9), 2 * n):
+            atoms = [(bounds[2 * i], bounds[2 * i + 1]) for i in range(n)]
+            if all(atoms[i][1] < atoms[i + 1][0] for i in range(n - 1)):
+                sets.append(atoms)
+    for _ in range(200 if tier == 'quick' else 3000):
+        n = rnd.randint(1, 12)
+        pts = sorted(rnd.sample(range(0, 100000), 2 * n))
+        atoms = [(pts[2 * i], pts[2 * i + 1]) for i in range(n)]
+        if all(atoms[i][1] < atoms[i + 1][0] for i in range(n - 1)):
+            sets.append(atoms)
+    for atoms in sets:
+        stats['evaluations'] += 1
+        iv = portion.empty()
+        for lo, hi in atoms:
+            iv |= portion.closedopen(lo, hi)
+        case = {'intervals': atoms[:6], 'count': len(atoms)}
+        try:
+            pairs = UA.range_encode(iv)
+            back = UA.range_decode(pairs)
+        except Exception as e:  # noqa
+            fails.append({'check': 'G-range-exception', 'case': case, 'got': '%s: %s' % (type(e).__name__, e)})
+            continue
+        want = []
+        last = 0
+        for lo, hi in atoms:
+            want += [lo - last, hi - lo]
+            last = hi
+        if pairs != want or any(p < 0 for p in pairs):
+            fails.append({'check': 'G-range-encoding', 'case': case, 'got': pairs[:12], 'expected': want[:12]})
+        elif back != iv:
+            fails.append({'check': 'G-range-round-trip', 'case': case, 'got': str(back)[:200]})
+
+
 def main(argv):
     tier = 'quick'
     if '--tier' in argv:
@@ -245,10 +286,12 @@ def main(argv):
                     if len(samples) < 3:
                         samples.append({'length': n, 'mtu': mtu, 'segments': len(r[1])})
     check_composed(fails, stats)
+    check_range_codec(fails, stats, rnd, tier)
     out = {'tool': 'enumeration on the real udpcl.agent.Agent (_send_transfer, _recv_datagram) and the real cbor2',
            'bound': 'bundle lengths %s x MTUs %s x transfer ids 0/24/300; arrival orders: all permutations up to 5 segments, '
                     'reversed / seeded shuffles above; repeats; interleaving with a second peer port and a second transfer id; '
-                    'composed datagrams (several messages, padding); seed %d' % (lengths, mtus, seed),
+                    'composed datagrams (several messages, padding); range_encode / range_decode on all normalised interval '
+                    'sets with bounds below 9 (up to 3 intervals) and 200 (thorough: 3000) random ones; seed %d' % (lengths, mtus, seed),
            'evaluations': stats['evaluations'], 'distinct_nontrivial': stats['evaluations'],
            'rule': 'one case = one (length, MTU, id) segmentation, one arrival sequence fed to a fresh agent, or one '
                    'encoder length comparison',
